@@ -14,13 +14,23 @@ _tmpdir = None
 
 
 def scratch() -> Path:
-    """per-process scratch directory in /dev/shm (removed at exit)."""
+    """per-process scratch directory under the run's root in /dev/shm. the root is created by the
+    first (parent) process and removed by it at exit, so children that are killed leak nothing."""
     global _tmpdir
     if _tmpdir is None or _tmpdir[0] != os.getpid():
-        d = Path(tempfile.mkdtemp(prefix=f'fjv-{os.getpid()}-', dir='/dev/shm'))
+        root = os.environ.get('FJV_SCRATCH_ROOT')
+        if not root or not os.path.isdir(root):
+            root = tempfile.mkdtemp(prefix=f'fjv-{os.getpid()}-', dir='/dev/shm')
+            os.environ['FJV_SCRATCH_ROOT'] = root
+            import atexit
+            owner = os.getpid()
+
+            def _rm():
+                if os.getpid() == owner:
+                    shutil.rmtree(root, True)
+            atexit.register(_rm)
+        d = Path(tempfile.mkdtemp(prefix=f'p{os.getpid()}-', dir=root))
         _tmpdir = (os.getpid(), d)
-        import atexit
-        atexit.register(shutil.rmtree, str(d), True)
     return _tmpdir[1]
 
 
